@@ -170,6 +170,18 @@ def _jd(o):
     return repr(o)
 
 
+def _limit_worker_memory():
+    """A code change can make a simulator run for ever and grow without bound (e.g. a node that never recovers under an
+    unbounded horizon): a worker is limited to WORKER_MEM_GB of address space, so that it fails with MemoryError - which
+    the caller reports - instead of taking the machine down."""
+    try:
+        import resource
+        lim = int(float(os.environ.get("EON_VERIF_WORKER_MEM_GB", "6")) * 2 ** 30)
+        resource.setrlimit(resource.RLIMIT_AS, (lim, lim))
+    except Exception:
+        pass
+
+
 def pool_map(fn, items, procs=None, chunksize=None):
     """Ordered parallel map with fork (workers inherit loaded spec graphs)."""
     import multiprocessing as mp
@@ -182,7 +194,7 @@ def pool_map(fn, items, procs=None, chunksize=None):
     ctx = mp.get_context("fork")
     if chunksize is None:
         chunksize = max(1, len(items) // (procs * 8))
-    with ctx.Pool(procs) as pool:
+    with ctx.Pool(procs, initializer=_limit_worker_memory) as pool:
         return pool.map(fn, items, chunksize=chunksize)
 
 
@@ -223,7 +235,7 @@ def pool_run(fn, items, is_bad, stop_after=25, procs=None, is_settled=None, sett
     _POOL_FN = fn
     _POOL_STOP = ctx.Event()
     chunksize = max(1, min(64, len(items) // (procs * 16)))
-    pool = ctx.Pool(procs)
+    pool = ctx.Pool(procs, initializer=_limit_worker_memory)
     try:
         for i, r in pool.imap_unordered(_pool_guarded, list(enumerate(items)), chunksize=chunksize):
             if r is None:
